@@ -23,7 +23,7 @@ ASSUMPTIONS = ['base calls are only checked where every sensible likelihood agre
                'with identical quality multisets give N; one base dominating in count and in every quality gives that base',
                'the MD tag is parsed tolerantly (missing zero separators accepted): only its meaning is compared with the reference']
 MIN_NONTRIVIAL = {'quick': 150, 'thorough': 2500}
-REQUIRED_MONITORS = ['ret:deduplicate_majority', 'reads:checked', 'reads:gapped', 'reads:reverse', 'bases:decidable_checked', 'bases:conflict_N_expected',
+REQUIRED_MONITORS = ['lib:reads_with_indel', 'ret:deduplicate_majority', 'reads:checked', 'reads:gapped', 'reads:reverse', 'bases:decidable_checked', 'bases:conflict_N_expected',
                      'cli:consensus_reads_checked', 'split:max_N_span']
 SHARD_TIMEOUT = {'quick': 900, 'thorough': 5400}
 
@@ -86,8 +86,10 @@ def check_consensus_reads(acc, reads, mol_recs, gen, contig, truth_tags, label, 
                     obs[rp + k].append((rec['seq'][qp + k], rec['qual'][qp + k]))
                 qp += n
                 rp += n
-            elif op == 'S':
+            elif op in ('S', 'I'):
                 qp += n
+            elif op in ('D', 'N'):
+                rp += n
     got_cov = set()
     for a in reads:
         acc.count('reads:checked')
@@ -202,7 +204,8 @@ def run_case(case):
                         qual = ([r.choice([12, 20, 30, 37]) for _ in range(rl)], [r.choice([12, 20, 30, 37]) for _ in range(rl)])
                     fr, tr = F.make_fragment(gen, r, rid, case['i'] + 1, method, cell, name, pos, reverse, umi, r.choice([60, 75, 120, 300, 700]),
                                              r1_len=rl, r2_len=rl, mismatches=r.choice([0, 0, 1, 2]), r2_mismatches=r.choice([0, 0, 1]),
-                                             single_end=r.random() < 0.1, qual=qual)
+                                             single_end=r.random() < 0.1, qual=qual,
+                                             r2_indel=r.choice([None, None, None, ('I', r.randint(1, 4)), ('D', r.randint(1, 4))]))
                     if fr is None:
                         continue
                     recs.extend(fr)
@@ -210,6 +213,7 @@ def run_case(case):
                     rid += 1
     if not truths:
         return acc
+    acc.count('lib:reads_with_indel', sum(1 for x in recs if 'I' in x['cigar'] or 'D' in x['cigar']))
     byid = defaultdict(list)
     for rec in recs:
         byid[F.id_from_name(rec['name'])].append(rec)
